@@ -13,9 +13,9 @@ type verifCtl struct {
 	out []*pipeline.Event
 }
 
-func (c *verifCtl) Propagate(e *pipeline.Event)                      { c.out = append(c.out, e) }
+func (c *verifCtl) Propagate(e *pipeline.Event)                            { c.out = append(c.out, e) }
 func (c *verifCtl) Spawn(parent *pipeline.Event, nodes []*insaneJSON.Node) {}
-func (c *verifCtl) IncMaxEventSizeExceeded(lvs ...string)            {}
+func (c *verifCtl) IncMaxEventSizeExceeded(lvs ...string)                  {}
 
 type verifEv struct {
 	ev       *pipeline.Event
